@@ -7,7 +7,7 @@ earlier plugins applied"). Core Lean only.
 import NriModel.Ledger
 
 namespace Nri.Overlay
-open Nri.Api Nri.Result
+open Nri.NApi Nri.Result
 
 /-- NRI-level reading of one plugin's adjustment on the container it was shown: the spec of
     "the container … with the adjustments of all earlier plugins applied" (C04), written
